@@ -109,6 +109,7 @@ def call(w, *args):
 
 def check_doc(ctx, ch, events):
     a, b, tmp = workers(ctx)
+    os.makedirs(tmp, exist_ok=True)
     xml = enrich(ch.to_xml(), ch)
     base = "file:///c20/doc.scxml"
     labels = set()
@@ -172,9 +173,6 @@ def replay(ctx, case):
         check_doc(ctx, ch, events)
     except Failure as f:
         return [{"kind": f.kind, "detail": f.detail}]
-    finally:
-        if hasattr(ctx, '_c20'):
-            shutil.rmtree(ctx._c20[2], ignore_errors=True)
     return []
 
 
